@@ -89,6 +89,10 @@ SPLITTERS = {'split', 'rsplit', 'splitlines', 'groups', 'findall', 'partition', 
 MATCH_ATTRS = {'group', 'groups', 'start', 'end', 'span', 'groupdict'}
 
 
+class _SomeStr(str):
+    """A constant, non-empty string whose exact value is not known (one of several constants)."""
+
+
 class Item(tuple):
     """(type, origin, kind)"""
     __slots__ = ()
@@ -234,6 +238,8 @@ class Escape:
         if isinstance(e, ast.Compare) and len(e.ops) == 1 and isinstance(e.ops[0], (ast.Is, ast.IsNot, ast.Eq, ast.NotEq)):
             k1, v1 = self._const(e.left)
             k2, v2 = self._const(e.comparators[0])
+            if k1 and k2 and (isinstance(v1, _SomeStr) or isinstance(v2, _SomeStr)):
+                return False, None
             if k1 and k2:
                 r = (v1 is v2) if isinstance(e.ops[0], (ast.Is, ast.IsNot)) else (v1 == v2)
                 return True, r if isinstance(e.ops[0], (ast.Is, ast.Eq)) else not r
@@ -297,9 +303,22 @@ class Escape:
                         break      # the rest of the block is unreachable in this constant context
             # names assigned inside a compound statement are not constants afterwards
             if isinstance(s, (ast.If, ast.For, ast.While, ast.Try, ast.With, ast.AsyncFor, ast.AsyncWith)):
+                stored = {}
+                for n in ast.walk(s):
+                    if isinstance(n, ast.Assign):
+                        for t in n.targets:
+                            if isinstance(t, ast.Name):
+                                stored.setdefault(t.id, []).append(n.value)
                 for n in ast.walk(s):
                     if isinstance(n, ast.Name) and isinstance(n.ctx, ast.Store):
-                        self.env.pop(n.id, None)
+                        vals = stored.get(n.id)
+                        if n.id in self.env and isinstance(self.env[n.id], str) and vals and all(
+                                isinstance(v, ast.Constant) and isinstance(v.value, str) and v.value for v in vals):
+                            # a string constant before, re-bound only to non-empty string constants: still *some* constant
+                            # string (e.g. a codec name replaced by 'utf-8'), only which one is unknown
+                            self.env[n.id] = _SomeStr('<some constant string>')
+                        else:
+                            self.env.pop(n.id, None)
         return out
 
     def _stmt(self, fi, s, reraise):
